@@ -245,6 +245,65 @@ func checkC20(c *Ctx, r *Report) {
 			}
 		}
 	}
+	// every course NewCourse hands out carries the caller's reference (magnetic / true)
+	if fn := c.Func(pkg, "NewCourse"); fn != nil {
+		var magPar *ssa.Parameter
+		for _, p := range fn.Params {
+			if b, ok := p.Type().Underlying().(*types.Basic); ok && b.Kind() == types.Bool {
+				magPar = p
+			}
+		}
+		for _, ret := range returnsOf(fn) {
+			v := resOf(ret, 0)
+			if isNilConst(v) {
+				continue
+			}
+			o := r.Add("C20-course", fnName(fn), "returned course carries the reference asked for", c.pos(ret.Pos()))
+			al, ok := v.(*ssa.Alloc)
+			if !ok || magPar == nil {
+				o.Bad("could not identify the Course value returned (unresolved)")
+				continue
+			}
+			good, other := false, false
+			var scan func(al *ssa.Alloc, depth int)
+			scan = func(al *ssa.Alloc, depth int) {
+				for _, ref := range *al.Referrers() {
+					switch x := ref.(type) {
+					case *ssa.FieldAddr:
+						if !strings.HasSuffix(pathOf(x), ".Magnetic") {
+							continue
+						}
+						for _, r2 := range *x.Referrers() {
+							if st, ok := r2.(*ssa.Store); ok {
+								if sameSlotValue(st.Val, magPar) {
+									good = true
+								} else {
+									other = true
+								}
+							}
+						}
+					case *ssa.Store:
+						// whole-struct copy from a composite literal built in a temporary
+						if x.Addr == ssa.Value(al) && depth < 3 {
+							if ld, ok := x.Val.(*ssa.UnOp); ok && ld.Op == token.MUL {
+								if src, ok := ld.X.(*ssa.Alloc); ok {
+									scan(src, depth+1)
+									continue
+								}
+							}
+							other = true
+						}
+					}
+				}
+			}
+			scan(al, 0)
+			if good && !other {
+				o.OK("Magnetic is the caller's argument")
+			} else {
+				o.Bad("a Course is returned whose Magnetic field is not the caller's argument (e.g. a literal built on a boundary path): NewCourse(360, true) prints 000T instead of 000M")
+			}
+		}
+	}
 	if fn := c.Func(pkg, "(Course).String"); fn == nil {
 		r.Fail("C20-course", "anchor catalog.Course.String not found")
 	} else {
@@ -326,6 +385,54 @@ func checkC20(c *Ctx, r *Report) {
 			r.Check("C20-optional", where, "line of "+ptrPath+" appears whenever it is set", c.pos(ld.Pos()), extra == "",
 				"the only conditions on the path are non-nil tests of optional fields", "the line is additionally conditional on "+extra+": a field that is set (e.g. to zero) can be silently omitted")
 		})
+		// every line of an optional (pointer) field is written under the non-nil tests of optional
+		// fields and under nothing else - whatever helper computes the value printed
+		optLabels := map[string]bool{}
+		for _, ci := range callsTo(fn, false, "fmt.Fprintf", "fmt.Fprint", "fmt.Fprintln", "bytes.Buffer.WriteString", "fmt.Sprintf") {
+			args := ci.Common().Args
+			var format string
+			for _, a := range args {
+				if s, ok := constString(a); ok && format == "" {
+					format = s
+				}
+			}
+			label := ""
+			for _, l := range []string{"LATITUDE", "LONGITUDE", "SPEED", "COURSE"} {
+				if strings.HasPrefix(format, l+":") {
+					label = l
+				}
+			}
+			if label == "" {
+				continue
+			}
+			optLabels[label] = true
+			extra, nilTests := "", 0
+			for _, cd := range condsAt(ci.Block()) {
+				if b, ok := cd.V.(*ssa.BinOp); ok && isNilConst(b.Y) && strings.Contains(pathOf(b.X), ".") && ((b.Op == token.NEQ) == cd.Truth) {
+					if _, isPtr := b.X.Type().Underlying().(*types.Pointer); isPtr {
+						nilTests++
+						continue
+					}
+				}
+				extra = c.exprAt(fn, cd.V.Pos())
+				if extra == "" {
+					extra = pathOf(cd.V)
+				}
+			}
+			switch {
+			case extra != "":
+				r.Add("C20-optional", where, "line "+label+" written iff set", c.pos(ci.Pos())).Bad("the %s line is conditional on %s, which is not a non-nil test of the optional field: a field that is set (e.g. a speed of exactly zero) is silently omitted, or an unset one printed", label, extra)
+			case nilTests == 0:
+				r.Add("C20-optional", where, "line "+label+" written iff set", c.pos(ci.Pos())).Bad("the %s line is written unconditionally although its field is optional", label)
+			default:
+				r.Add("C20-optional", where, "line "+label+" written iff set", c.pos(ci.Pos())).OK("written exactly under the non-nil test(s) of the optional field(s)")
+			}
+		}
+		for _, l := range []string{"LATITUDE", "LONGITUDE", "SPEED", "COURSE"} {
+			if !optLabels[l] {
+				r.Add("C20-optional", where, "line "+l+" written iff set", c.pos(fn.Pos())).Bad("no write of a %s line with a constant label found (unresolved)", l)
+			}
+		}
 		// C20-valid
 		type need struct {
 			callee string
